@@ -325,5 +325,18 @@ G_EFF_CTX = [_ge("g_effects_backlog_at_stop_ctx_task", _W_GE + "; dispatch(a); s
 CHECKS["C11"]["quick"] += G_EFF_CTX[:1] + U_EFFECT_T[1:2]
 CHECKS["C11"]["thorough"] = [x for x in CHECKS["C11"]["thorough"] if x["name"] != U_EFFECT_T[1]["name"]] + G_EFF_CTX[1:]
 
+G_JOIN = [_ge("g_join_runs_loop_task", _W_GE + "; the reducer loop is run WHILE stop() is inside the pool join (placed at the join's scheduling point): a lock of the store that stop() still holds and the loop needs is a deadlock", "backlog of 1 action with a Task effect", timeout_s=600), _ge("g_join_runs_loop_none", _W_GE + "; loop run inside the join", "backlog of 1 action without effect", timeout_s=600)]
+G_JOIN_T = [_ge("g_join_runs_loop_thunk", _W_GE + "; loop run inside the join", "Thunk effect", timeout_s=600)]
+CHECKS["C13"]["quick"] = G_JOIN + [x for x in CHECKS["C13"]["quick"]]
+CHECKS["C13"]["thorough"] += G_JOIN_T
+CHECKS["C13"]["bounds"] += "; (d) the reducer loop run while stop() is suspended inside the pool join"
+CHECKS["C04"]["thorough"] += G_JOIN[:1]
+CHECKS["C18"]["quick"] += U_EFFECT_Q[1:2]
+for _p in ("C01", "C02", "C04", "C13"):
+    for _t in ("quick", "thorough"):
+        for _x in CHECKS[_p][_t]:
+            if "g_locks" in _x["name"]:
+                _x["what"] = "ADVISORY " + _x["what"] + " (mechanism probe: a failure is reported as a note, not as a violation)"
+
 HOOK_COMMITS = ['da8b80e', '8cd617e', '39efd23']
 NOT_APPLICABLE = {}
